@@ -116,7 +116,8 @@ mod native {
                         p.am_choked = !(kind == 0 || kind == 1 || kind == 4 || kind == 5);
                         p.interested = kind == 0 || kind == 1 || kind == 2 || kind == 5;
                         p.optimistic_unchoke = kind == 5;
-                        if kind != 1 { let r = if kind == 2 { 1000 + k } else { 10 + k }; p.download_rate = Some(r); p.uploaded_rate = Some(r); }
+                        // waiting interested peers are the fast ones; some rates lie beyond i32::MAX
+                        if kind != 1 { let r = if kind == 2 { 3_000_000_000u32 + k } else { 10 + k }; p.download_rate = Some(r); p.uploaded_rate = Some(r); }
                         s.peers.insert(format!("10.0.{}.{}:1", kind, k), p);
                         k += 1;
                     } }
@@ -130,6 +131,17 @@ mod native {
                             "after rotation {} of a table with kinds {:?}: {} regular upload slots, {} optimistic unchokes", round + 1, c, regular, optimistic);
                         while let Ok(cmd) = rx.try_recv() {
                             if let BroadCmd::SendOwnState { am_choked_map } = cmd { for (a, st) in am_choked_map { view.insert(a, st); } }
+                        }
+                        // C14 "no interested peer with a strictly better measured rate than a slot holder is left choked" (when the
+                        // rotation was carried out, i.e. every peer had reported its rates)
+                        if c[1] == 0 {
+                            for (a, p) in s.peers.iter() { for (b, q) in s.peers.iter() {
+                                if !p.am_choked && !p.optimistic_unchoke && q.am_choked && q.interested {
+                                    assert!(q.download_rate.unwrap() <= p.download_rate.unwrap(),
+                                        "after rotation {} of a table with kinds {:?}: {} (rate {}) holds a slot while the interested peer {} (rate {}) is left choked",
+                                        round + 1, c, a, p.download_rate.unwrap(), b, q.download_rate.unwrap());
+                                }
+                            } }
                         }
                         for (a, p) in s.peers.iter() {
                             assert!(view[a] == p.am_choked, "after rotation {} of a table with kinds {:?}: peer {} was told choked={} but the client has am_choked={}", round + 1, c, a, view[a], p.am_choked);
@@ -170,5 +182,98 @@ mod native {
         }
         std::env::set_current_dir("/").unwrap();
         let _ = std::fs::remove_dir_all(&dir);
+    }
+
+    // WITNESS for D16 and BOUNDED second line behind SESS/Session::spawn_peer_listener/{wf, existing_peers_untouched} (C12): the address
+    // of an accepted connection is chosen by the PEER (its source port), so it can equal the address of a record that is still
+    // live -- a peer the client connected to at ip:P that connects back from source port P, or a reconnect from the same port before
+    // the old task's KillReq was handled.  Real loopback connections from a chosen source port; for every small state of the live
+    // record (assignment or none, choked or not) the record must survive and no reservation may be left without its peer.
+    #[test]
+    fn native_c12_connection_from_a_live_address() {
+        let rt = tokio::runtime::Builder::new_current_thread().enable_all().build().unwrap();
+        let cases = rt.block_on(async {
+            let mut cases = 0usize;
+            // (a) the whole history with real sockets: the tracker lists a peer at 127.0.0.1:P; the client connects to it
+            // (spawn_peer_handler, the real task dials out and the "peer" accepts); the peer then connects to the client FROM its
+            // port P (SO_REUSEPORT next to its listening socket) -- the accepted connection carries the address of the live record
+            {
+                let peer_listener = tokio::net::TcpSocket::new_v4().unwrap();
+                peer_listener.set_reuseaddr(true).unwrap();
+                peer_listener.set_reuseport(true).unwrap();
+                peer_listener.bind("127.0.0.1:0".parse().unwrap()).unwrap();
+                let peer_addr = peer_listener.local_addr().unwrap();
+                let peer_listener = peer_listener.listen(4).unwrap();
+                let own_listener = tokio::net::TcpListener::bind("127.0.0.1:0").await.unwrap();
+
+                let mut s = Session::new(torrent(2), [1u8; PEER_ID_SIZE]);
+                s.candidates.push((peer_addr.to_string(), [2u8; PEER_ID_SIZE]));
+                s.spawn_peer_handler();
+                assert!(s.peers.len() == 1 && s.peers[&peer_addr.to_string()].id == Some([2u8; PEER_ID_SIZE]));
+                let (_out_conn, _) = tokio::time::timeout(std::time::Duration::from_secs(10), peer_listener.accept()).await
+                    .expect("the client's task did not connect to the peer").unwrap();
+
+                let back = tokio::net::TcpSocket::new_v4().unwrap();
+                back.set_reuseaddr(true).unwrap();
+                back.set_reuseport(true).unwrap();
+                back.bind(peer_addr).unwrap();
+                let (client, accepted) = tokio::join!(back.connect(own_listener.local_addr().unwrap()), own_listener.accept());
+                let _client = client.unwrap();
+                let (socket, from) = accepted.unwrap();
+                assert!(from == peer_addr);
+
+                s.spawn_peer_listener(socket).await;
+
+                assert!(s.peers.len() == 1 && s.peers[&peer_addr.to_string()].id == Some([2u8; PEER_ID_SIZE]),
+                    "the peer at {} (connected to by the client, id expected) connected back from the same port and its record was replaced: id is now {:?}",
+                    peer_addr, s.peers.get(&peer_addr.to_string()).map(|p| p.id));
+                cases += 1;
+            }
+            // (b) every small state of the live record
+            for assigned in [None, Some(0usize), Some(1usize)] { for choked in [false, true] { for others in 0..3usize {
+                let listener = tokio::net::TcpListener::bind("127.0.0.1:0").await.unwrap();
+                let sock = tokio::net::TcpSocket::new_v4().unwrap();
+                sock.set_reuseaddr(true).unwrap();
+                sock.bind("127.0.0.1:0".parse().unwrap()).unwrap();
+                let src = sock.local_addr().unwrap().to_string();
+                let (client, accepted) = tokio::join!(sock.connect(listener.local_addr().unwrap()), listener.accept());
+                let _client = client.unwrap();
+                let (socket, from) = accepted.unwrap();
+                assert!(from.to_string() == src);
+
+                let mut s = Session::new(torrent(2), [1u8; PEER_ID_SIZE]);
+                let mut p = Peer::new(Some([2u8; PEER_ID_SIZE]), 2, tokio::spawn(async {}));
+                p.pieces = vec![true, true];
+                p.choked = choked;
+                p.am_interested = true;
+                if let (Some(i), false) = (assigned, choked) { p.piece_index = Some(i); s.pieces_status[i] = Status::Reserved(1); }
+                s.peers.insert(src.clone(), p);
+                for k in 0..others {
+                    let mut q = Peer::new(None, 2, tokio::spawn(async {}));
+                    q.am_interested = true;
+                    s.peers.insert(format!("10.0.0.{}:1", k), q);
+                }
+                let before: Vec<(String, Option<usize>, bool, Option<[u8; PEER_ID_SIZE]>)> =
+                    s.peers.iter().map(|(a, p)| (a.clone(), p.piece_index, p.choked, p.id)).collect();
+
+                s.spawn_peer_listener(socket).await;
+
+                for (a, idx, ch, id) in before.iter() {
+                    let now = s.peers.get(a).unwrap_or_else(|| panic!("the record of {} vanished when a connection from {} was accepted", a, src));
+                    assert!(now.piece_index == *idx && now.choked == *ch && now.id == *id,
+                        "a connection accepted from {} (an address with a live record: assignment {:?}, choked {}) replaced the record of {}: assignment {:?} -> {:?}, id {:?} -> {:?}",
+                        src, assigned, choked, a, idx, now.piece_index, id, now.id);
+                }
+                for (i, st) in s.pieces_status.iter().enumerate() {
+                    if let Status::Reserved(_) = st {
+                        assert!(s.peers.values().any(|p| p.piece_index == Some(i) && !p.choked),
+                            "after a connection from {} was accepted, piece {} is marked as being fetched but no connected peer has been asked for it (stale reservation)", src, i);
+                    }
+                }
+                cases += 1;
+            } } }
+            cases
+        });
+        assert!(cases == 19);
     }
 }
